@@ -44,12 +44,28 @@ func keyCmp(name string) func(a, b Key) int {
 
 func intCmp(name string) func(a, b int) int {
 	switch name {
-	case "rev":
-		return func(a, b int) int { return (b - a) * 7 }
+	case "rev": // differences of arbitrary magnitude (only the sign may matter), overflow-safe
+		return func(a, b int) int {
+			d := b - a
+			if (b >= a) != (d >= 0) || d > 1<<40 || d < -(1<<40) { // overflow or huge: saturate
+				if b > a {
+					d = 1 << 40
+				} else {
+					d = -(1 << 40)
+				}
+			}
+			return d * 7
+		}
 	case "coarse":
 		return func(a, b int) int { return a/2 - b/2 }
 	case "coarsej": // ties between the JSON grammar's keys 1 and 2
-		return func(a, b int) int { return (a+1)/2 - (b+1)/2 }
+		h := func(a int) int {
+			if a == math.MaxInt {
+				return a/2 + 1
+			}
+			return (a + 1) / 2
+		}
+		return func(a, b int) int { return h(a) - h(b) }
 	default:
 		return func(a, b int) int {
 			switch {
